@@ -143,6 +143,16 @@ def roundInt (m : Mode) (x : Rat) : Int :=
       match cmpQ (2 * (x - f)) 1 with
       | .lt => f | .gt => c | .eq => if f % 2 = 0 then f else c
 
+/-- the correctly rounded `p`-digit value of `x` in mode `m` (canonical representative of the
+    contract; flag by the side of the error) -/
+def specRound (B : Nat) (m : Mode) (p : Nat) (x : Rat) : Rounded FRepr :=
+  if x = 0 then (⟨0, 0⟩, none)
+  else
+    let e := ulpExp B p x
+    let y := x / bpowQ B e
+    let n := roundInt m y
+    (FRepr.new B n e, if (n : Rat) = y then none else if y < (n : Rat) then some .AddOne else some .SubOne)
+
 /-- `x` has at most `p` significant base-`B` digits -/
 def representable (B p : Nat) (r : FRepr) : Bool := p == 0 || decide ((FRepr.new B r.signif r.exp).digits B ≤ p)
 
